@@ -130,6 +130,11 @@ def run_symx_check(mod, tier, seed, only=None, procs=None, extra_cov=None, pre_v
                 V.known[k["id"]] = (n + 1, k["what"])
             elif ok is True:
                 V.violations.append((path, "[known-finding example behaves differently] %s" % verdict.get("detail", "")))
+    if hasattr(mod, "extra_phase"):
+        try:
+            extra_cov = dict(extra_cov or {}, **(mod.extra_phase(tier, seed, V) or {}))
+        except Exception as e:  # noqa
+            extra_cov = dict(extra_cov or {}, extra_phase_error=str(e)[:300])
     tot = runner.summarize(results)
     if tot["completed"] == 0 and not V.violations:
         V.harness.append("no path completed in any task: nothing was checked")
